@@ -43,9 +43,14 @@ RULE = ("package images with sibling names that are string prefixes of each othe
         "var, bin, …): shared entries, entries deleted or retyped behind the package's back, non-empty directories, symlinks to files and "
         "directories at listed locations, symlinked ancestor directories; MergeEngine.uninstall and .replace with an offset, and "
         "unmerge_contents directly with/without its offset argument; the live root is named to the code by its canonical path or through a "
-        "symlink (mount-point link, link with '..'); when model and code disagree on a case, the property is evaluated on the inputs next to "
+        "symlink (mount-point link, link with '..') or in a non-normalised spelling (doubled slash, '.' component, trailing slash, 'root/../root'); "
+        "histories: the measured operation is the last of up to five steps made by the same process on the same root — earlier upgrades of the "
+        "package (build after build) and, in between, layout changes (the package's directory moved and its old name left as a symlink, or "
+        "such a link dissolved again); when model and code disagree on a case, the property is evaluated on the inputs next to "
         "it (other root spelling, other engine, protected base directories owned and left empty, root pruned to the listed paths); non-trivial = at least one listed path is removed and at least one "
         "listed directory or protected directory survives")
+
+SCALE = float(os.environ.get("VERIF_C20_SCALE", "1"))     # development only: fraction of the random budget
 
 BASE = [["usr"], ["usr", "lib"], ["usr", "bin"], ["usr", "share"], ["usr", "lib32"], ["usr", "sbin"], ["etc"], ["var"], ["opt"], ["bin"],
         ["lib64"], ["home"], ["sbin"]]
@@ -220,6 +225,95 @@ def gen_pruned(rng):
     return tree, b1
 
 
+class Hist(list):
+    """a live root (list of nodes) plus what happened on it earlier IN THE SAME PROCESS: engine runs and changes of the
+    directory layout made by the administrator in between.  The measured operation runs on the root the history leaves."""
+    history = ()
+
+
+def with_history(tree, history):
+    t = Hist(tree)
+    t.history = list(history)
+    return t
+
+
+LINK_PAIRS = [("lib64", "lib"), ("app64", "app"), ("share", "doc"), ("man1p", "man1"), ("foo2", "foo")]
+
+
+def _not_at(entries, D):
+    """(the builds are generated under the directory's first name; nothing of the package may sit at or below its other name)"""
+    return [e for e in entries if e["p"][:len(D)] != D]
+
+
+def gen_history(rng):
+    """one long-lived process (a package manager session: emerge -uD world) working on one live root: the package is
+    upgraded build after build, and in between the layout of the root changes — the directory the package lives in is
+    moved and its old name left behind as a symlink (the usr/lib -> lib64, bin -> usr/bin migrations) or a link is
+    dissolved into a real directory again.  Old contents stay recorded under the name they were merged under; every
+    next build may come under any name the directory has at that time.  The last operation is the measured one."""
+    base = rng.choice([["usr"], ["opt"], []])
+    dname, lname = rng.choice(LINK_PAIRS)
+    D, L = base + [dname], base + [lname]
+    tree = [{"p": base[:i], "k": "dir", "mode": 0o755, "uid": 0, "gid": 0, "mtime": 1000} for i in range(1, len(base) + 1)]
+    linked = rng.random() < 0.25
+    cur = gen_package(rng, top=tuple(L), nmax=6)                  # canonical naming: under L
+    tree += [n for n in nodes_of(_under(cur, L, D if linked else L)) if n["p"] not in [t["p"] for t in tree]]
+    if linked:
+        tree.append({"p": L, "k": "sym", "target": dname, "mode": 0o777, "uid": 0, "gid": 0, "mtime": 1000})
+    if rng.random() < 0.3:
+        tree.append({"p": (D if linked else L) + ["foreign"], "k": "file", "data": "66", "mode": 0o644, "uid": 0, "gid": 0, "mtime": 5})
+    rec = rng.choice([D, L]) if linked else L                    # the name the installed build is recorded under
+    hist, engine_steps = [], 0
+    for _ in range(rng.randint(1, 3)):
+        r = rng.random()
+        if not linked and (r < 0.45 and engine_steps or r < 0.1):
+            hist.append({"op": "migrate", "dir": L, "to": D})
+            linked = True
+            continue
+        if linked and r < 0.08:
+            hist.append({"op": "dissolve", "link": L, "dir": D})   # the link goes, the directory gets its name back
+            linked = False
+            continue
+        nb = _not_at(next_build(rng, cur, top=tuple(L)), D)
+        nrec = rng.choice([D, L]) if linked else L
+        hist.append({"op": "replace", "old": _under(cur, L, rec), "new": _under(nb, L, nrec)})
+        cur, rec, engine_steps = nb, nrec, engine_steps + 1
+    if not linked and engine_steps and rng.random() < 0.6:
+        hist.append({"op": "migrate", "dir": L, "to": D})
+        linked = True
+    old = _under(cur, L, rec)
+    if rng.random() < 0.25:
+        return "uninstall", with_history(tree, hist), old, None
+    nb = _not_at(next_build(rng, cur, top=tuple(L)), D)
+    return "replace", with_history(tree, hist), old, _under(nb, L, rng.choice([D, L, D]) if linked else L)
+
+
+def run_step(sb, root, st):
+    """one earlier step on the same root, by the same process (not recorded, not judged here: every prefix of a history
+    is a case of its own distribution); returns the exception it ended with, if any"""
+    try:
+        if st["op"] == "migrate":
+            src, dst = sb.path(st["dir"]), sb.path(st["to"])
+            os.rename(src, dst)
+            os.symlink(os.path.relpath(dst, os.path.dirname(src)), src)
+        elif st["op"] == "dissolve":
+            os.unlink(sb.path(st["link"]))
+            os.rename(sb.path(st["dir"]), sb.path(st["link"]))
+        elif st["op"] == "uninstall":
+            e = make_engine("uninstall", sb, FakePkg(make_cset(sb, st["old"])), offset=root)
+            for h in HOOKS_UN:
+                getattr(e, h)()
+        elif st["op"] == "replace":
+            e = make_engine("replace", sb, FakePkg(make_cset(sb, st["old"])), FakePkg(make_cset(sb, st["new"])), offset=root)
+            for h in HOOKS_MERGE + HOOKS_REST:
+                getattr(e, h)()
+        else:
+            raise ValueError("unknown history step %r" % (st,))
+    except Exception as ex:  # noqa: BLE001
+        return ex
+    return None
+
+
 def symlinked(pre_snap, entries, dirs_too=False):
     """a location runs through a symlink (dirs_too: or a directory entry sits on one — the replace engine resolves
     those on the live file system when it decides what the new package owns)"""
@@ -275,8 +369,9 @@ def rel_of(sb, path):
 
 
 # how the live root is named to the code: its canonical path; a path that reaches it through a symlink (a mount point
-# link such as /mnt/gentoo -> ../roots/stage3, or /tmp -> private/tmp); the canonical path with a trailing slash
-SPELLINGS = ("plain", "link", "link-deep")
+# link such as /mnt/gentoo -> ../roots/stage3, or /tmp -> private/tmp); spellings of the canonical path that are not in
+# normalised form (ROOT=/mnt//gentoo, /mnt/./gentoo/, a trailing slash, a 'root/../root' detour)
+SPELLINGS = ("plain", "link", "link-deep", "dslash", "dot", "trailing", "dotdot")
 
 
 def spell_root(sb, how):
@@ -289,6 +384,14 @@ def spell_root(sb, how):
         os.mkdir(os.path.join(sb.base, "roots"))
         os.symlink("..", os.path.join(sb.base, "roots", "up"))
         alias = os.path.join(sb.base, "roots", "up", "root")
+    elif how == "dslash":
+        return sb.base + "//root"
+    elif how == "dot":
+        return sb.base + "/./root/"
+    elif how == "trailing":
+        return sb.root + "/"
+    elif how == "dotdot":
+        return sb.root + "/../root"
     else:
         return sb.root
     sb.aliases = (os.path.normpath(alias),)
@@ -350,6 +453,9 @@ def run_real(kind, tree, old, new=None, offset_arg=True, how="plain"):
     try:
         sb.build(tree)
         root = spell_root(sb, how)
+        hist_exc = [run_step(sb, root, st) for st in getattr(tree, "history", ())]
+        if hist_exc:
+            sb.build([], mkroot=False)          # keep-alive links for what the earlier steps created (inode identity)
         pre = snapshot(sb.root)
         mid = None
         exc = None
@@ -401,7 +507,7 @@ def run_real(kind, tree, old, new=None, offset_arg=True, how="plain"):
                                       % (e_["p"], before[:2], after[:2]))
         return {"pre": pre, "mid": mid, "post": post, "ops": rec.ops, "exc": exc, "outside": rec.outside, "oracle": oracle,
                 "nmid": locals().get("nmid"), "plan": locals().get("plan"), "restab": locals().get("restab"),
-                "live": locals().get("live")}
+                "live": locals().get("live"), "hist_exc": [x for x in hist_exc if x is not None]}
     finally:
         os.umask(um)
         sb.cleanup()
@@ -440,6 +546,22 @@ CORPUS = [
     ("replace", [_d(["opt"]), _s(["opt", "lib"], ".")],
      [_e(["opt"], "dir"), _e(["opt", "lib"], "dir"), _e(["opt", "lib", "lib"], "sym", target="x")],
      [_e(["opt"], "dir"), _e(["opt", "lib"], "dir"), _e(["opt", "lib", "f"], "reg")]),
+]
+
+
+_LIB1 = [_e(["usr"], "dir"), _e(["usr", "lib"], "dir"), _e(["usr", "lib", "liba.so"], "reg", data="6131"), _e(["usr", "lib", "libb.so"], "reg", data="6231")]
+_LIB2 = [_e(["usr"], "dir"), _e(["usr", "lib"], "dir"), _e(["usr", "lib", "liba.so"], "reg", data="6132"), _e(["usr", "lib", "libb.so"], "reg", data="6232")]
+CORPUS += [
+    # one session: an upgrade while usr/lib is a real directory, then the lib -> lib64 migration, then the next upgrade, which
+    # comes under usr/lib64 while the installed build is recorded under usr/lib
+    ("replace", with_history([_d(["usr"]), _d(["usr", "lib"]), _f(["usr", "lib", "liba.so"], "6131"), _f(["usr", "lib", "libb.so"], "6231")],
+                             [{"op": "replace", "old": _LIB1, "new": _LIB2}, {"op": "migrate", "dir": ["usr", "lib"], "to": ["usr", "lib64"]}]),
+     _LIB2, _under([_e(["usr", "lib", "libc.so"], "reg", data="6333") if e["p"][-1] == "liba.so" else e for e in _LIB1], ["usr", "lib"], ["usr", "lib64"])),
+    # ... and the other way round: installed through the link, the link dissolved, upgraded under the directory's only name
+    ("replace", with_history([_d(["usr"]), _d(["usr", "lib64"]), _s(["usr", "lib"], "lib64"), _f(["usr", "lib64", "liba.so"], "6131"), _f(["usr", "lib64", "libb.so"], "6231")],
+                             [{"op": "replace", "old": _under(_LIB1, ["usr", "lib"], ["usr", "lib64"]), "new": _LIB2},
+                              {"op": "dissolve", "link": ["usr", "lib"], "dir": ["usr", "lib64"]}]),
+     _LIB2, _LIB1),
 ]
 
 
@@ -531,7 +653,14 @@ def process(ctx, cases, probe=False):
     prot = {tuple(p) for p in protected_paths()}
     for (kind, tree, old, new, offarg, how, origin), r in zip(cases, results):
         m, sp = replies[r["first"]], replies[r["first"] + 1]
-        case = {"kind": kind, "tree": tree, "old": old, "new": new, "offset_arg": offarg, "root_spelling": how, "origin": origin}
+        case = {"kind": kind, "tree": list(tree), "old": old, "new": new, "offset_arg": offarg, "root_spelling": how, "origin": origin}
+        if getattr(tree, "history", None):
+            case["history"] = tree.history
+            ctx.count("history_steps_%d" % len(tree.history))
+            for st in tree.history:
+                ctx.count("history_op_" + st["op"])
+            if r["hist_exc"]:
+                ctx.count("history_step_raised_" + classify_exc(r["hist_exc"][0]).split(":")[0])
 
         def mismatch(detail):
             disagreed.append((kind, tree, old, new, offarg, how, origin))
@@ -547,7 +676,8 @@ def process(ctx, cases, probe=False):
         removed = [p for p in r["pre"] if p not in r["post"]]
         kept_listed = [e for e in old if tuple(e["p"]) in r["post"] and r["post"][tuple(e["p"])]["k"] == "dir"]
         ctx.case(case, res == "ok" and len(removed) >= 1 and len(kept_listed) >= 1,
-                 key=repr((kind, how, r["prej"], [entry_json(e) for e in old], [entry_json(e) for e in (new or [])])))
+                 key=repr((kind, how, r["prej"], [entry_json(e) for e in old], [entry_json(e) for e in (new or [])],
+                           getattr(tree, "history", None))))
         ctx.count("kind_" + kind)
         ctx.count("root_spelling_" + how)
         ctx.count("origin_" + origin.split(":")[0])
@@ -620,11 +750,19 @@ def run(ctx):
     cases = [c + ("corpus",) for c in CORPUS]
     # the corpus once more with the live root named through a symlink
     cases += [c + ("corpus-link",) for c in CORPUS if c[0] != "unmerge"]
+    # ... and with the root's path spelled in a non-normalised way
+    cases += [c + ("corpus-spelled",) for c in CORPUS if c[0] != "unmerge"]
     if ctx.replay_cases:
-        cases = [(c["kind"], c["tree"], c["old"], c.get("new"), ("replay", c.get("offset_arg"), c.get("root_spelling")))
-                 for c in ctx.replay_cases if "kind" in c] + cases
-    for _ in range(ctx.n(900, 14000)):
+        cases = [(c["kind"], with_history(c["tree"], c["history"]) if c.get("history") else c["tree"], c["old"], c.get("new"),
+                  ("replay", c.get("offset_arg"), c.get("root_spelling")))
+                 for c in map(c18.redangle, ctx.replay_cases) if "kind" in c] + cases
+    for _ in range(int(ctx.n(800, 12500) * SCALE)):
         g = rng.random()
+        if g < 0.12:
+            kind, tree, old, new = gen_history(rng)
+            cases.append((kind, tree, old, new, "history"))
+            continue
+        g = (g - 0.12) / 0.88
         if g < 0.15:
             tree, old, new = gen_alias_replace(rng)
             cases.append(("replace", tree, old, new, "alias"))
@@ -659,11 +797,13 @@ def run(ctx):
     full = []
     for kind, tree, old, new, origin in cases:
         offarg = rng.random() < 0.5
-        how = rng.choice(["plain", "plain", "link", "link-deep"])
+        how = rng.choice(["plain", "plain", "plain", "link", "link-deep", "dslash", "dot", "trailing", "dotdot"])
         if origin == "corpus":
             how = "plain"
         elif origin == "corpus-link":
             how = "link"
+        elif origin == "corpus-spelled":
+            how = ("dslash", "dot", "trailing", "dotdot")[len(full) % 4]
         elif isinstance(origin, tuple):
             origin, oa, sp_ = origin
             offarg = offarg if oa is None else oa
